@@ -586,7 +586,11 @@ Fixpoint exec (n : nat) (e : expr) (s : st) : out :=
         | None => Done (upd s false (VErr 3) (pos s))
         end
     | Ref r => ret (call r (pos s))
-    | Seq es => seq_loop (exec n) es s []
+    (* seq.py: an empty sequence parses nothing, so nothing has set the status: it is set here *)
+    | Seq es => match es with
+                | [] => Done (upd s true (VList []) (pos s))
+                | _ => seq_loop (exec n) es s []
+                end
     | Discard a b dl =>
         bind (exec n a s) (fun s1 =>
           if always a || status s1 then
@@ -669,7 +673,10 @@ Fixpoint exec (n : nat) (e : expr) (s : st) : out :=
     | Let x e body =>
         bind (exec n e s) (fun s1 =>
           if always e || status s1 then exec n body (bindl s1 x (result s1)) else Done s1)
-    | Class cls ms => class_loop (exec n) cls (pos s) ms s []
+    | Class cls ms => match ms with
+                      | [] => Done (upd s true (VObj cls [] (pos s, pos s)) (pos s))
+                      | _ => class_loop (exec n) cls (pos s) ms s []
+                      end
     | OpTable pre opd post inf => op_main (exec n) n pre opd post inf s (OS [] [] 0 (pos s))
     | RefL x => match lookup x (locals s) with
                 | Some v => ret (invoke v (pos s))
